@@ -172,6 +172,16 @@ void *__wrap_memalign(size_t align, size_t n)
     return monitored() ? arena_alloc(n, align, 0, AM_MEMALIGN) : __real_memalign(align, n);
 }
 
+/* make the live blocks of an object read-only (ro != 0) or writable again: a call that is documented to only
+   read the object must not fault while its state is PROT_READ */
+void am_protect_obj(int obj, int ro)
+{
+    int i;
+    for (i = 0; i < nblk; ++i)
+        if (blk[i].live && blk[i].obj == obj && blk[i].map)
+            mprotect(blk[i].map, blk[i].span - PG, ro ? PROT_READ : (PROT_READ | PROT_WRITE));
+}
+
 /* release the address space of quarantined blocks (between cases) */
 void am_release_all(void)
 {
